@@ -61,7 +61,7 @@ var initWhitelist = map[string]bool{
 	"sort": true, "slices": true, "errors": false, "encoding/base64": true,
 	"encoding/hex": true, "encoding/binary": true, "unicode/utf8": true,
 	"math/bits": true, "math": false, "path/filepath": true, "cmp": true,
-	"internal/itoa": true, "internal/stringslite": true, "io/fs": true, "internal/oserror": true,
+	"internal/itoa": true, "internal/stringslite": true, "io/fs": true, "internal/oserror": true, "filippo.io/edwards25519": true, "filippo.io/edwards25519/field": true,
 	"golang.org/x/crypto/chacha20poly1305": false, "golang.org/x/crypto/curve25519": true,
 }
 
